@@ -226,8 +226,9 @@ SETTERS = ("RtpTransceiver::set_mid", "RtpTransceiver::update_payload_map", "Rtp
 # could provoke them in this sandbox. They are excluded from R09.2 one named callee at a time, and listed in the evidence.
 # (configure_rtp_media_transports_from_remote used to be listed here; a CONFIGURATION - an RTP port range without a usable
 # even port - makes it fail deterministically, so it is decided now: known finding, see KNOWN_FINDINGS.txt.)
+# (start_direct likewise: ice_transport_policy = Relay without a TURN server, or ice_gather_udp_hosts = false, leaves it
+# without a local candidate and it fails deterministically - decided now, known finding.)
 TRANSPORT_FAILURES = {
-    "start_direct": "IceTransport::start_direct fails only on gathering/socket errors or a 2 s candidate timeout",
 }
 
 
